@@ -4,6 +4,9 @@ K = "esp_kconfiglib.core"
 EVAL_SIDECARS = ["contracts.kschema", "contracts.c_eval"]
 RENDER_SIDECARS = EVAL_SIDECARS + ["contracts.c_render"]
 MUT_SIDECARS = EVAL_SIDECARS + ["contracts.c_mut"]
+MC_SIDECARS = RENDER_SIDECARS + ["contracts.c_mut", "contracts.c_menuconfig"]
+MCM = "esp_menuconfig.model"
+SRV = "kconfserver.core"
 
 
 class Prop:
@@ -65,10 +68,16 @@ PROPS = {
     "C11": Prop([], [], ["drv_loadsave"], level="other", explanation="rename resolution bounded"),
     "C12": Prop([], [], ["drv_outputs"], level="other", explanation="touch decision, idempotence and crash clause bounded"),
     "C13": Prop([], [], ["drv_outputs"], level="other", explanation="write-only-on-change and backup crash clause bounded"),
-    "C14": Prop([], [], ["drv_server"], level="other", explanation="client-sync invariant bounded"),
+    "C14": Prop(["contracts.c_server"], [f"{SRV}:diff"], ["drv_server"], level="other",
+                explanation="diff(before, after) proved to carry exactly the new / changed entries of `after`; the "
+                            "client-sync invariant over whole request histories and the restart clause are bounded"),
     "C15": Prop([], [], ["drv_server"], level="other", explanation="one reply per line / survival bounded"),
-    "C16": Prop(MUT_SIDECARS, [f"{K}:Symbol.set_value"], ["drv_menuconfig"], level="other",
-                explanation="stored user values proved canonical (what is written is what a reload reads); needs_save bounded"),
+    "C16": Prop(MC_SIDECARS, [f"{MCM}:MenuConfigState.needs_save", f"{K}:Symbol.config_string",
+                              f"{K}:Symbol.has_active_default_value", f"{K}:Symbol.set_value"], ["drv_menuconfig"],
+                level="other",
+                explanation="needs_save() proved exact w.r.t. the baseline fields (clean <=> no unknown entry and every "
+                            "option's file entry equals the line and marker that saving would write), on top of the proved "
+                            "line / marker renderers; that load / save establish the baseline is bounded"),
     "C17": Prop([], [], ["drv_menuconfig"], level="other", explanation="state invariant bounded"),
     "C18": Prop([], [], ["drv_tools"], level="other", explanation="bounded"),
     "C19": Prop([], [], ["drv_tools"], level="other", explanation="bounded"),
